@@ -31,3 +31,38 @@ func VerifNewOrderedMergerDP(field string, limit uint64) *DataProcessor {
 	ms.limit.Set(limit)
 	return NewMergerDP(ms)
 }
+
+// verifOrderedLess orders records by the numeric column `field`, ascending.
+func verifOrderedLess(field string) func(a, b *iqr.Record) bool {
+	return func(a, b *iqr.Record) bool {
+		va, errA := a.ReadColumn(field)
+		vb, errB := b.ReadColumn(field)
+		if errA != nil || errB != nil {
+			return errB != nil && errA == nil
+		}
+		fa, errA := va.GetFloatValue()
+		fb, errB := vb.GetFloatValue()
+		if errA != nil || errB != nil {
+			return errB != nil && errA == nil
+		}
+		return fa < fb
+	}
+}
+
+// VerifNewOrderedMergerDPOpt is VerifNewOrderedMergerDP with an optional row limit (a merger
+// behind parallel chains whose order comes from a command without a limit).
+func VerifNewOrderedMergerDPOpt(field string, limit uint64, hasLimit bool) *DataProcessor {
+	ms := mergeSettings{less: verifOrderedLess(field)}
+	if hasLimit {
+		ms.limit.Set(limit)
+	}
+	return NewMergerDP(ms)
+}
+
+// VerifSetOrderedMerge gives a DataProcessor the merge settings it needs to read SEVERAL input
+// streams that are ordered by the numeric column `field` (what SetMergeSettingsBasedOnStream /
+// setMergeSettings do for the real orders); the streams are then set with SetStreams.
+func VerifSetOrderedMerge(dp *DataProcessor, field string) {
+	dp.mergeSettings.less = verifOrderedLess(field)
+	dp.mergeSettings.limit.Clear()
+}
